@@ -169,6 +169,11 @@ func (s *VerifSim) handleGroup(broker int32, body protocolBody) (res encoderWith
 			r.MemberId = gr.member
 			r.LeaderId = gr.member
 			r.Members = map[string][]byte{}
+			if s.GroupFollower {
+				// another (ghost) member leads: the real member gets no member list and sends an empty plan;
+				// its assignment is what the script says
+				r.LeaderId = "ghost-leader"
+			}
 			var meta []byte
 			for _, gp := range req.OrderedGroupProtocols {
 				r.GroupProtocol = gp.Name
@@ -186,9 +191,11 @@ func (s *VerifSim) handleGroup(broker int32, body protocolBody) (res encoderWith
 					meta = req.GroupProtocols[names[0]]
 				}
 			}
-			r.Members[gr.member] = meta
-			for i := 0; i < s.GroupGhosts; i++ {
-				r.Members[fmt.Sprintf("ghost-%d", i)] = meta
+			if !s.GroupFollower {
+				r.Members[gr.member] = meta
+				for i := 0; i < s.GroupGhosts; i++ {
+					r.Members[fmt.Sprintf("ghost-%d", i)] = meta
+				}
 			}
 			lg.IssuedMember, lg.IssuedGen = gr.member, gr.generation
 		}
@@ -210,6 +217,13 @@ func (s *VerifSim) handleGroup(broker int32, body protocolBody) (res encoderWith
 				r.Err = ErrIllegalGeneration
 			} else {
 				r.MemberAssignment = req.GroupAssignments[gr.member]
+				if s.GroupFollower {
+					r.MemberAssignment = nil
+					if len(s.GroupFollowerParts) > 0 {
+						b, _ := encode(&ConsumerGroupMemberAssignment{Version: 1, Topics: map[string][]int32{s.GroupFollowerTopic: s.GroupFollowerParts}}, nil)
+						r.MemberAssignment = b
+					}
+				}
 				if len(r.MemberAssignment) > 0 {
 					a := new(ConsumerGroupMemberAssignment)
 					if decode(r.MemberAssignment, a) == nil {
